@@ -25,6 +25,7 @@ struct Tally {
     histories: u64,
     stress_rounds: u64,
     late_faults: u64,
+    env_states: u64,
 }
 fn flush(t: &Tally, out: &mut Out) {
     out.count("evaluations", t.histories);
@@ -39,6 +40,7 @@ fn flush(t: &Tally, out: &mut Out) {
     out.count("failed_save_keeps_earlier_entries_checked", t.failed_save_checks);
     out.count("concurrent_stress_rounds", t.stress_rounds);
     out.count("faults.documents_appearing_under_a_running_context", t.late_faults);
+    out.count("file_states_compared_between_XDG_DATA_HOME_and_HOME_fallback", t.env_states);
 }
 
 /// Which of the two user files a document is installed as.
@@ -364,7 +366,7 @@ impl Prop for C10 {
     fn rule(&self) -> String {
         "faults: (a) every byte prefix 0..len of learned-selection stores the engine itself wrote in this run (25 stores quick, 200 thorough) and of a user auto-correct file; \
          (b) a corpus of 32 documents installed as either file, before the context is created and again under a running context followed by update_engine: wrong shapes, empty file, BOM, invalid UTF-8, NUL bytes, deep nesting, trailing garbage, duplicate keys, empty-string keys and values, a 5 MB object; \
-         (c) directory states: user directory missing, user directory is a regular file, store path is a directory, auto-correct path is a directory, dangling symlinks; failed saves: file-size limit 0 / 10 / 40 bytes (RLIMIT_FSIZE), user directory removed or replaced by a file, the save's temporary path linked to /dev/full (ENOSPC); \
+         (c) directory states: user directory missing, user directory is a regular file, store path is a directory, auto-correct path is a directory, dangling symlinks; failed saves: file-size limit 0 / 10 / 40 bytes (RLIMIT_FSIZE), user directory removed or replaced by a file, the save's temporary path linked to /dev/full (ENOSPC); (e) three file states (valid, damaged, directory missing) once with the user directory named by XDG_DATA_HOME and once by the HOME/.local/share fallback: same probe renderings required; \
          (d, thorough) three processes committing into / constructing over one directory. Each fault is followed by a fixed battery: construct, 16 probe typings (words of the files and their suffix forms), 4 learning commits, re-typing, \
          update_engine x3, restart, suggestions-off and fixed-layout contexts. Unreadable content must give the probe renderings of an absent file; after a failed save the earlier entries must still be pre-selected by a new context. \
          distinct_nontrivial = distinct faults after which the battery was run."
@@ -386,7 +388,7 @@ impl Prop for C10 {
     fn minima(&self, _tier: Tier) -> Vec<(&'static str, u64)> {
         vec![
             ("faults.byte_prefixes_of_engine_written_files", 300), ("faults.corpus_documents", 60), ("faults.directory_states", 4), ("faults.failed_saves", 5),
-            ("unreadable_content_compared_with_absent_file", 300), ("readable_documents_exercised", 10), ("failed_save_keeps_earlier_entries_checked", 5), ("faults.documents_appearing_under_a_running_context", 60),
+            ("unreadable_content_compared_with_absent_file", 300), ("readable_documents_exercised", 10), ("failed_save_keeps_earlier_entries_checked", 5), ("faults.documents_appearing_under_a_running_context", 60), ("file_states_compared_between_XDG_DATA_HOME_and_HOME_fallback", 3),
         ]
     }
     fn run_shard(&self, env: &Env, out: &mut Out) {
@@ -624,6 +626,49 @@ impl Prop for C10 {
                     }
                 }
             }
+        }
+        // ---- (e) the environment that names the user directory: XDG_DATA_HOME unset, $HOME/.local/share instead.
+        // The same file states must be treated the same way under either rule.
+        if env.shard == 1 % env.nshards {
+            let home_root = env.root("c10-home").join(".local").join("share");
+            let xdg_root = env.root("c10-xdg");
+            let states: Vec<(&str, Option<&[u8]>, Option<&[u8]>)> = vec![
+                ("both files valid", Some(b"{\"ami\":\"\xe0\xa6\x86\xe0\xa6\xae\xe0\xa6\x87\",\"as\":\"\xe0\xa6\x86\xe0\xa6\xb6\"}"), Some(b"{\"am\":\"tomar\",\"k\":\"kO\"}")),
+                ("both files damaged", Some(b"{\"ami\":"), Some(b"[1,2")),
+                ("user directory missing", None, None),
+            ];
+            for (name, store, ac) in &states {
+                let mut res: Vec<Option<Vec<String>>> = vec![];
+                for (home, root) in [(true, &home_root), (false, &xdg_root)] {
+                    let _ = std::fs::remove_dir_all(root);
+                    std::fs::create_dir_all(root).unwrap();
+                    if store.is_some() || ac.is_some() {
+                        std::fs::create_dir_all(user_dir(root)).unwrap();
+                    }
+                    if let Some(b) = store {
+                        std::fs::write(selection_file(root), b).unwrap();
+                    }
+                    if let Some(b) = ac {
+                        std::fs::write(autocorrect_file(root), b).unwrap();
+                    }
+                    let case = || json!({"fault": "environment", "user_directory_named_by": if home { "HOME (XDG_DATA_HOME unset)" } else { "XDG_DATA_HOME" }, "state": name});
+                    out.begin_case(&case);
+                    HOME_ENV.store(home, std::sync::atomic::Ordering::Relaxed);
+                    let r = battery(root, name, &case, out, &mut t);
+                    HOME_ENV.store(false, std::sync::atomic::Ordering::Relaxed);
+                    res.push(r);
+                }
+                t.env_states += 1;
+                if let (Some(Some(a)), Some(Some(b))) = (res.first(), res.get(1)) {
+                    if a != b {
+                        let k = a.iter().zip(b.iter()).position(|(x, y)| x != y).unwrap_or(0);
+                        out.violation("keeps-working", format!("c10:home-fallback-differs:{name}"), json!({"fault": "environment", "state": name}),
+                                      format!("{} (user directory named by XDG_DATA_HOME)", b.get(k).cloned().unwrap_or_default()), format!("{} (named by HOME/.local/share)", a.get(k).cloned().unwrap_or_default()));
+                    }
+                }
+            }
+            let _ = std::fs::remove_dir_all(env.root("c10-home"));
+            let _ = std::fs::remove_dir_all(&xdg_root);
         }
         // ---- (d) concurrent stress (thorough): three processes over one directory; only "no panic" is judged
         if thorough && env.shard < 3 {
